@@ -474,3 +474,24 @@ func (c *Corpus) ExtendOn(view []*CTx, label string) *CTx {
 	payload := []byte(fmt.Sprintf("%s-%s-payload-%d", c.Tag, label, c.n))
 	return c.SignValid(prevs, payload, "foo/bar", c.Keys[c.Choose(label+" key", len(c.Keys))], nil)
 }
+
+// SignWith builds a transaction through the repository's own constructor and signer with full
+// control over how the key is referenced: embedded (kid == "") or by key id.
+func (c *Corpus) SignWith(prevRefs []hash.SHA256Hash, lc uint32, payload []byte, payloadType string, key *ecdsa.PrivateKey, kid string) (*CTx, error) {
+	utx, err := dag.NewTransaction(hash.SHA256Sum(payload), payloadType, prevRefs, nil, lc)
+	if err != nil {
+		return nil, err
+	}
+	var signer dag.TransactionSigner
+	if kid == "" {
+		signer = dag.NewTransactionSigner(MemSigner{key}, "", key.Public())
+	} else {
+		signer = dag.NewTransactionSigner(MemSigner{key}, kid, nil)
+	}
+	tx, err := signer.Sign(context.Background(), utx, c.Now())
+	if err != nil {
+		return nil, err
+	}
+	c.n++
+	return &CTx{Tx: tx, Raw: tx.Data(), Payload: payload, Ref: tx.Ref(), Prevs: tx.Previous(), LC: lc, Valid: true, Idx: c.n}, nil
+}
